@@ -327,6 +327,66 @@ func TestVf_C20_Enum(t *testing.T) {
 	}
 }
 
+// Concurrent callers: Search must be a pure function of (xs, k) also when several goroutines call it at once on
+// their own slices (no hidden shared scratch state).
+func TestVf_C20_Conc(t *testing.T) {
+	ev := vfNewEvidence(t, "C20")
+	rapid.Check(t, func(t *rapid.T) {
+		g := rapid.IntRange(2, 8).Draw(t, "goroutines")
+		cases := make([]*vfSearchCase, g)
+		for i := range cases {
+			cases[i] = vfGenSearchCase(t)
+			cases[i].Back2 = nil
+		}
+		rounds := rapid.IntRange(50, 400).Draw(t, "rounds")
+		type bad struct {
+			c        *vfSearchCase
+			sig, msg string
+		}
+		res := make(chan bad, g)
+		start := make(chan struct{})
+		for i := range cases {
+			go func(c *vfSearchCase) {
+				<-start
+				for r := 0; r < rounds; r++ {
+					if sig, msg := vfCheckSearchCase(c); sig != "" {
+						res <- bad{c, sig, msg}
+						return
+					}
+				}
+				res <- bad{}
+			}(cases[i])
+		}
+		close(start)
+		var first *bad
+		for range cases {
+			if b := <-res; b.sig != "" && first == nil {
+				bb := b
+				first = &bb
+			}
+		}
+		tails := 0
+		for _, c := range cases {
+			if c.N%8 != 0 {
+				tails++
+			}
+		}
+		ev.Case(tails >= 2, vfHash(g, rounds, cases[0].N, cases[0].K, cases[g-1].N, cases[g-1].K), "concurrent-callers")
+		ev.Sample(tails >= 2, func() any {
+			return map[string]any{"goroutines": g, "rounds_each": rounds, "lengths": func() []int {
+				var l []int
+				for _, c := range cases {
+					l = append(l, c.N)
+				}
+				return l
+			}()}
+		})
+		if first != nil {
+			t.Fatalf("%s", vfFail("C20", "search", "C20/concurrent-callers/"+first.sig[4:], first.c, "with %d concurrent callers: %s", g, first.msg))
+		}
+	})
+}
+
 func TestVfReplay_C20(t *testing.T) {
 	var c vfSearchCase
 	if !vfLoadReplay(t, &c) {
